@@ -112,6 +112,34 @@ def run(seed, tier="quick", ids=None):
     for k, v in results.items():
         old[k + ":" + tier] = v
     json.dump(old, open(rp, "w"), indent=1)
+def matrix(seed, tier="quick", par=3):
+    """Runs EVERY registered check against the seeded change (3 at a time) and records all results."""
+    from concurrent.futures import ThreadPoolExecutor
+    d, meta = load(seed)
+    ids = [c["property_id"] for c in json.load(open(os.path.join(ROOT, "MANIFEST.json")))["checks"]]
+    wt = wt_new("mx-" + seed)
+    results = {}
+    def one(cid):
+        t0 = time.time()
+        rc, out = sh("./check %s %s" % (cid, tier), cwd=ROOT, env=dict(ENV, VERIF_REPO=wt))
+        sigs = sorted(set(l.strip().split("signature: ", 1)[1] for l in out.splitlines() if "signature: " in l))
+        fired = rc == 1 and "VIOLATION property=" in out
+        return cid, {"tier": tier, "fired": fired, "exit": rc, "signatures": sigs[:8], "wall_s": round(time.time() - t0, 1)}
+    try:
+        apply(d, wt)
+        with ThreadPoolExecutor(par) as ex:
+            for cid, res in ex.map(one, ids):
+                results[cid] = res
+                if res["fired"] or res["exit"] not in (0, 1):
+                    print(seed, cid, "FIRED" if res["fired"] else "exit %d" % res["exit"], res["signatures"][:3])
+    finally:
+        wt_rm("mx-" + seed)
+    rp = os.path.join(d, "result.json")
+    old = json.load(open(rp)) if os.path.exists(rp) else {}
+    for k, v in results.items():
+        old[k + ":" + tier] = v
+    json.dump(old, open(rp, "w"), indent=1)
+    print(seed, "fired:", sorted(k for k, v in results.items() if v["fired"]))
 def table():
     rows = []
     for seed in sorted(os.listdir(os.path.join(ROOT, "seeded"))):
@@ -131,4 +159,5 @@ if __name__ == "__main__":
         tier = sys.argv[3] if len(sys.argv) > 3 and sys.argv[3] in ("quick", "thorough") else "quick"
         ids = [a for a in sys.argv[3:] if a not in ("quick", "thorough")]
         run(sys.argv[2], tier, ids or None)
+    elif c == "matrix": matrix(sys.argv[2])
     elif c == "table": table()
